@@ -40,11 +40,12 @@ ASSUMPTIONS = ["virtual time: timer intervals scaled 1 s -> 20 ms by "
                "execution (context bound 1)"]
 
 APIS = {
-    "compute_dynamics": ["H", "gamma", "A", "cap", "shape", "stdout"],
+    "compute_dynamics": ["H", "gamma", "A", "cap", "shape", "stdout",
+                         "zero"],
     "compute_dynamics_with_field": ["H", "eom", "cap", "shape"],
     "state_gradient": ["H", "target", "cap", "shape"],
     "compute_gradient_and_dynamics": ["H", "target"],
-    "tempo": ["H", "gamma", "A", "stdout"],
+    "tempo": ["H", "gamma", "A", "stdout", "zero"],
     "meanfield": ["H", "eom"],
     "pttempo": ["corr"],
     "gibbs": ["j"],
@@ -159,7 +160,8 @@ def run_fault(case):
         count_sc = [{"kind": "fault", "id": f"count-{k}", "api": api,
                      "progress": "silent",
                      "fault": {"kind": k, "at": None}} for k in kinds
-                    if k not in ("cap", "shape", "stdout", "float_end")]
+                    if k not in ("cap", "shape", "stdout", "float_end",
+                                 "zero")]
         count_sc.append({"kind": "fault", "id": "clean", "api": api,
                          "progress": prog, "fault": None})
         status, err, res = _worker(count_sc, tmpd, "count")
@@ -180,7 +182,7 @@ def run_fault(case):
         for k in kinds:
             if k == "stdout":
                 pts = [1, 2, 3, 5, 8]       # the write that hits a dead pipe
-            elif k == "float_end":
+            elif k in ("float_end", "zero"):
                 pts = [0]
             elif k in ("cap", "shape"):
                 pts = list(range(0, 5 if k == "cap" else 4))
@@ -197,8 +199,8 @@ def run_fault(case):
                 # KeyboardInterrupt (Ctrl-C arriving inside the callable) or
                 # a user-defined BaseException - every way a call can raise
                 exc = EXC_CLASSES[(n_at + len(k)) % 3] \
-                    if k not in ("cap", "shape", "stdout", "float_end") \
-                    else None
+                    if k not in ("cap", "shape", "stdout", "float_end",
+                                 "zero") else None
                 tag = "" if exc in (None, "Exception") else "!" + exc
                 scen.append({"kind": "fault",
                              "id": f"{api}|{prog}|{k}@{at}{tag}",
